@@ -514,8 +514,9 @@ pub async fn run_reader(cell: StreamCell, stream: usize, end: usize, ops: Vec<RO
     let mut off = 0usize;
     let mut eof = false;
     for op in ops {
-        if eof {
-            return;
+        if eof && matches!(op, ROp::Read(_) | ROp::Fill(_) | ROp::ToEof(_)) {
+            // nothing more to read; later Drop/Park/Yield steps of the script still run
+            continue;
         }
         match op {
             ROp::Yield => yield_once().await,
@@ -532,6 +533,7 @@ pub async fn run_reader(cell: StreamCell, stream: usize, end: usize, ops: Vec<RO
                 let to_eof = matches!(op, ROp::ToEof(_));
                 loop {
                     let mut buf = vec![0u8; (n as usize).max(1)];
+                    let mut blocked = false;
                     let r = poll_fn(|cx| {
                         let mut g = cell.borrow_mut();
                         match g.as_mut() {
@@ -539,7 +541,13 @@ pub async fn run_reader(cell: StreamCell, stream: usize, end: usize, ops: Vec<RO
                             Some(s) => {
                                 let mut rb = ReadBuf::new(&mut buf);
                                 match Pin::new(s).poll_read(cx, &mut rb) {
-                                    Poll::Pending => Poll::Pending,
+                                    Poll::Pending => {
+                                        if !blocked {
+                                            blocked = true;
+                                            log.app(AppEv::ReadBlocked { stream, end });
+                                        }
+                                        Poll::Pending
+                                    }
                                     Poll::Ready(Ok(())) => Poll::Ready(Some(Ok(rb.filled().len()))),
                                     Poll::Ready(Err(e)) => Poll::Ready(Some(Err(e))),
                                 }
@@ -576,12 +584,19 @@ pub async fn run_reader(cell: StreamCell, stream: usize, end: usize, ops: Vec<RO
                 }
             }
             ROp::Fill(consume) => {
+                let mut blocked = false;
                 let r = poll_fn(|cx| {
                     let mut g = cell.borrow_mut();
                     match g.as_mut() {
                         None => Poll::Ready(None),
                         Some(s) => match Pin::new(&mut *s).poll_fill_buf(cx) {
-                            Poll::Pending => Poll::Pending,
+                            Poll::Pending => {
+                                if !blocked {
+                                    blocked = true;
+                                    log.app(AppEv::ReadBlocked { stream, end });
+                                }
+                                Poll::Pending
+                            }
                             Poll::Ready(Err(e)) => Poll::Ready(Some(Err(e))),
                             Poll::Ready(Ok(sl)) => {
                                 let seen = sl.to_vec();
